@@ -59,6 +59,18 @@ pub fn programs(w: &World, thorough: bool) -> Vec<String> {
             v.push(format!("[{base}^{x}, {base}^{x} * 2] |> head"));
         }
     }
+    // a global redefined with another dimension, then read from inside a function
+    {
+        let at = atoms(thorough);
+        for a in &at {
+            for b in &at {
+                let (a, b) = (a.render(), b.render());
+                v.push(format!("let gq = 2 * {a}\nlet gq = 3 * {b}\nfn rd() = gq\nrd()"));
+                v.push(format!("let gq = 2 * {a}\nlet gq = 3 * {b}\nfn rd2(t) = t + gq\nrd2(5 * {b})"));
+                v.push(format!("let gq = 2 * {a}\nfn rd3() = gq\nlet gq = 3 * {b}\nrd3()"));
+            }
+        }
+    }
     // struct fields and list elements
     for (a, b) in [("3 m", "2 s"), ("1 km + 2 m", "3 hour"), ("sq(2 m) / (1 m)", "1 / (2 Hz)")] {
         v.push(format!("Pair {{ p1: {a}, p2: {b} }}.p1"));
